@@ -351,13 +351,17 @@ impl<T, E> UnwrapOrDiverge<T> for Result<T, E> {
     #[verifier::external_body]
     fn unwrap_or_diverge(self) -> (r: T) ensures self matches Ok(v) && v == r { unimplemented!() }
 }
-// the key a base64 text stands for (None: not base64, or not 32 bytes)
-pub uninterp spec fn key_from_text(t: String) -> Option<Key>;
-impl Aes256GcmEncryptor {
-    // sdk/src/utils/crypto.rs: decodes the text, builds the cipher from exactly those 32 bytes; Err otherwise (not extracted: base64 crate)
+// the key a base64 text stands for: the text decodes (base64 crate, A-dep: `b64_decode`) to EXACTLY 32 bytes, which are the key
+pub uninterp spec fn b64_decode(t: String) -> Option<Seq<u8>>;
+pub open spec fn key_from_text(t: String) -> Option<Key> {
+    match b64_decode(t) { Some(b) => if b.len() == 32 { Some(key_of_bytes(b)) } else { None }, None => None }
+}
+pub mod text {
+    use super::*;
+    // sdk/src/utils/text.rs (not extracted: base64 crate): the decoded bytes, or Err if the text is not base64
     #[verifier::external_body]
-    pub fn from_base64_key(key: &String) -> (r: Result<Aes256GcmEncryptor, IggyError>)
-        ensures match r { Ok(e) => key_from_text(*key) == Some(e.cipher.key()), Err(_) => key_from_text(*key) is None },
+    pub fn from_base64_as_bytes(value: &String) -> (r: Result<Vec<u8>, IggyError>)
+        ensures match r { Ok(b) => b64_decode(*value) == Some(b@), Err(_) => b64_decode(*value) is None },
     { unimplemented!() }
 }
 
